@@ -131,7 +131,11 @@ def run(tier, seed):
     res2 = par.pmap(_strings_shard, [(c, maxlen) for c in par.chunks(prefixes, W * 2)])
     n_str = sum(r[0] for r in res2) + 1 + len(ALPHA)  # + empty + length-1 strings below
     bads += [b for r in res2 for b in r[1]]
-    for s in [b""] + [bytes((a,)) for a in ALPHA]:
+    long_strings = []
+    for L in (63, 64, 65, 127, 128, 255, 256, 257, 1000, 1001):
+        long_strings += [bytes(i % 256 for i in range(L)), bytes((0x7E - i) % 256 for i in range(L)), bytes([0x50, 0x4F] * (L // 2) + [0x7D] * (L % 2)), b"\x7e" * L]
+    n_str += len(long_strings)
+    for s in [b""] + [bytes((a,)) for a in ALPHA] + long_strings:
         what = check_one(s)
         if what:
             bads.append((s, what))
